@@ -99,7 +99,7 @@ func VerifCacheable(name, key string) Cacheable {
 	return Cacheable(cmds.NewCompleted([]string{name, key}))
 }
 
-func VerifCacheKey(c Cacheable) (key, cmd string) { return cmds.CacheKey(c) }
+// (VerifCacheKey is in verif_export_pure1.go)
 
 // VerifKeys builds the argument of CacheStore.Delete.
 func VerifKeys(keys []string) []RedisMessage {
